@@ -76,17 +76,18 @@ OnLeftCycle(r) == r \in Reach(LeftCalls(r), LeftCalls(r))
 LeftRecursive == {r \in RuleNames : OnLeftCycle(r)}
 
 \* ---- can an expression succeed while contributing no item (its packed value is None)?
+\* (an option/path that binds a name yields a dict, never None; an optional can always be skipped)
 RECURSIVE NoItems(_, _)
 NoItems(e, seen) ==
   CASE e.op \in {"void", "cut", "and", "not", "eof", "fail", "skipgroup"} -> TRUE
     [] e.op = "opt" -> TRUE
     [] e.op = "seq" -> \A i \in 1..Len(e.es) : NoItems(e.es[i], seen)
     [] e.op = "alt" -> \E i \in 1..Len(e.es) : NoItems(e.es[i], seen)
-    [] e.op \in {"group", "named", "namedlist", "ovr", "ovrlist", "skipto"} -> NoItems(e.e, seen)
+    [] e.op \in {"group", "skipto"} -> NoItems(e.e, seen)
     [] e.op = "call" -> IF e.name \in seen \/ ~HasRule(e.name) THEN FALSE
-                        ELSE ~HasNames(RuleExp(e.name)) /\ NoItems(RuleExp(e.name), seen \cup {e.name})
+                        ELSE NoItems(RuleExp(e.name), seen \cup {e.name})
     [] OTHER -> FALSE
-RuleMayReturnNone(r) == ~HasNames(RuleExp(r)) /\ NoItems(RuleExp(r), {r})
+RuleMayReturnNone(r) == NoItems(RuleExp(r), {r})
 
 \* ---- shapes whose AST the documents and the property texts leave open (spec/UNSPECIFIED.md).
 \*      The value verdict of C01 is not claimed for them; agreement properties still cover them.
